@@ -216,11 +216,45 @@ def cli_part(tier, tally):
                                  "stderr_tail": err[-300:]})
 
 
+def project_part(tally):
+    """Documents that live in directories (QML components, string imports, inheritance and import
+    cycles): in-process through the path API of the driver, and through the real command."""
+    vd = vc.VDrive(job_timeout=60.0)
+    for name, files, sources in corpus.PROJECTS:
+        with vc.scratch_dir("c07p") as d:
+            for rel, text in files.items():
+                p = os.path.join(d, rel)
+                os.makedirs(os.path.dirname(p), exist_ok=True)
+                with open(p, "w") as f:
+                    f.write(text)
+            for s in sources:
+                r = vd.job({"id": f"project/{name}/{s}", "path": os.path.join(d, s), "modes": list(vc.MODES),
+                            "render": True})
+                src = files[s]
+                tally.inc("class:project")
+                if r.get("crashed") or r.get("timeout"):
+                    what = "hang" if r.get("timeout") else f"crash:rc={r.get('returncode')}"
+                    tally.violation(f"project:{what}:{name}", {"id": f"project/{name}/{s}", "kind": "project",
+                                                               "project": name, "source_file": s, "files": files})
+                    continue
+                judge(tally, f"project/{name}/{s}", src, r)
+            for order in (sources, list(reversed(sources))):
+                rc, err = cli_probe(list(order), d, timeout=120)
+                tally.inc("cli_runs")
+                tally.inc(f"cli_exit:{rc}")
+                if rc not in (0, 1):
+                    tally.violation(f"project:cli-exit-{rc}:{name}", {"id": f"project/{name}", "kind": "project",
+                                                                      "project": name, "order": list(order),
+                                                                      "files": files, "exit": rc, "stderr_tail": err[-300:]})
+    vd.close()
+
+
 def main(tier, t0):
     vc.ensure_vdrive()
     vc.ensure_cli()
     rs = vc.run_sharded(shard_work, {"tier": tier})
     tally = vc.merge_tallies(rs)
+    project_part(tally)
     cli_part(tier, tally)
     c = tally.counts
     outcomes = {k: v for k, v in c.items() if k.startswith("outcome:")}
@@ -264,6 +298,17 @@ def replay(path):
         if rc not in (0, 1):
             print(f"VIOLATION property=C07 replay={path}")
             return 1
+        return 0
+    if case.get("kind") == "project":
+        vc.ensure_cli()
+        keep = corpus.PROJECTS
+        corpus.PROJECTS = [p for p in keep if p[0] == case["project"]]
+        project_part(t)
+        corpus.PROJECTS = keep
+        if t.violations:
+            print(f"VIOLATION property=C07 replay={path}")
+            return 1
+        print("replay: holds now")
         return 0
     vd = vc.VDrive()
     src = case["source"]
